@@ -204,6 +204,17 @@ def cases(ctx):
                     for _ in range(r.choice([1, 1, 2, 4])):
                         s = text_mutate(r, s)
                     yield mk(which, kind, s, "mutant")
+        # 4b. Base58Check strings with a VALID checksum over a payload of every length 0..90 (length checks behind the checksum gate)
+        if which in ("privkey_from_wif", "addr_from_string", "xprv_from_string", "xpub_from_string", "addr_serde_json"):
+            for L in range(0, 91):
+                for lead in (None, 0x80, 0x00, 0x04):
+                    if lead is not None and (L == 0 or (S + L) % 2):
+                        continue
+                    payload = gen.rbytes(r, L)
+                    if lead is not None:
+                        payload = bytes([lead]) + payload[1:]
+                    txt = base58.check_encode(payload)
+                    yield mk(which, kind, json.dumps(txt) if which.endswith("serde_json") else txt, "checksum_valid_len")
         # 5. random
         for _ in range(200 if t else 12):
             if kind == "bytes":
@@ -257,7 +268,7 @@ def short_file(f):
     return f
 
 
-def judge(ctx, case, build=None):
+def request_of(case):
     which = case["which"]
     if "hex" in case:
         n = len(case["hex"]) // 2
@@ -266,6 +277,18 @@ def judge(ctx, case, build=None):
         n = len(case["text"].encode("utf8", "surrogatepass"))
         req = {"op": "decode", "which": which, "text": case["text"]}
     req["guard"] = GUARD_C + (GUARD_K_DOC if ("json" in which or "compact" in which) else GUARD_K) * n
+    return req, n
+
+
+def judge(ctx, case, build=None):
+    req, n = request_of(case)
+    build = build or ctx.build
+    r = ctx.call(req, build=build)
+    assess(ctx, case, n, r, build)
+
+
+def assess(ctx, case, n, r, build):
+    which = case["which"]
     ctx.hit("request")
     ctx.hit(case["cls"])
     ctx.hit("dec_" + which)
@@ -273,7 +296,6 @@ def judge(ctx, case, build=None):
         ctx.hit("decoders_seen")
     if n:
         ctx.nontrivial()
-    r = ctx.call(req, build=build)
     ctx.ev()
     tag = "" if build in (None, "chk") else " [%s build]" % build
     if "ok" in r:
@@ -292,13 +314,77 @@ def judge(ctx, case, build=None):
     elif "alloc_guard" in r:
         g = r["alloc_guard"]
         ctx.viol("decoder %s exceeds the memory bound C + K * input length (%s)%s" % (which, "one allocation larger than the whole bound" if g["size"] > g["limit"] else "cumulative", tag), {"input": case.get("hex", case.get("text"))[:300], "guard": g, "input_len": n})
+    elif "miri_ub" in r:
+        ctx.viol("decoder %s: Miri reports an error: %s" % (which, norm(r["miri_ub"])), {"input": case.get("hex", case.get("text"))[:300], "stderr": r.get("stderr", "")[-1500:]})
     elif "death" in r:
         d = r["death"]
-        if d.get("code") == 99 or "AddressSanitizer" in d.get("stderr", ""):
-            first = [l for l in d.get("stderr", "").splitlines() if "ERROR: AddressSanitizer" in l][:1]
-            ctx.viol("decoder %s: AddressSanitizer report: %s" % (which, norm(first[0]) if first else "unknown"), {"input": case.get("hex", case.get("text"))[:300], "stderr": d.get("stderr", "")[:1500]})
+        err = d.get("stderr", "")
+        asan = d.get("code") == 99 or "AddressSanitizer" in err
+        if case["cls"] == "deep" and (not asan or "stack-overflow" in err):
+            # same symptom in every build: recursion over nested conditionals exhausts the native stack
+            ctx.viol("decoder %s kills the process on deeply nested input (native stack overflow)" % which, {"input": case.get("hex", case.get("text"))[:120], "build": build, "death": {q: d[q] for q in d if q != "stderr"}})
+        elif asan:
+            first = [l for l in err.splitlines() if "ERROR: AddressSanitizer" in l][:1]
+            ctx.viol("decoder %s: AddressSanitizer report: %s" % (which, norm(first[0].split("AddressSanitizer:")[-1].split(" on ")[0]) if first else "unknown"), {"input": case.get("hex", case.get("text"))[:300], "stderr": err[:1500]})
         else:
-            if case["cls"] == "deep":
-                ctx.viol("decoder %s kills the process on deeply nested input (native stack overflow)%s" % (which, tag), {"input": case.get("hex", case.get("text"))[:120], "death": {q: d[q] for q in d if q != "stderr"}})
-            else:
-                ctx.viol("decoder %s kills the process (%s)%s" % (which, d.get("signal") or d.get("code"), tag), {"input": case.get("hex", case.get("text"))[:300], "cls": case["cls"], "death": {q: d[q] for q in d if q != "stderr"}})
+            ctx.viol("decoder %s kills the process (%s)%s" % (which, d.get("signal") or d.get("code"), tag), {"input": case.get("hex", case.get("text"))[:300], "cls": case["cls"], "death": {q: d[q] for q in d if q != "stderr"}})
+
+MIRI_DECODERS = ["tx_from_bytes", "tx_from_hex", "tx_from_compact_bytes", "tx_from_json_string", "txin_from_hex", "txin_from_compact_bytes", "txin_serde_json", "txout_from_hex", "txout_serde_json", "script_from_bytes", "script_from_hex", "script_from_asm_string", "script_serde_json", "template_from_asm_string", "addr_from_string", "addr_from_pubkey_hash", "sig_from_der", "sighashsig_from_bytes", "hash_serde_json", "kdf_serde_json", "txin_from_outpoint_bytes"]
+
+
+def extra_stages(tier, seed, res):
+    """thorough only: the same workload generator against the release build (sites that panic under overflow checks wrap silently there),
+    against the AddressSanitizer build, and a small non-EC corpus under Miri."""
+    if tier != "thorough":
+        return []
+    from .. import core, miri
+
+    out = []
+    out += core.run_build_stage(__name__, "quick", seed + 101, "rel", list(range(0, 32)), 32, 600)
+    try:
+        out += core.run_build_stage(__name__, "quick", seed + 202, "asan", list(range(0, 32, 2)), 32, 900)
+    except Exception as e:  # nightly sanitizer path unavailable: reported, never a verdict
+        c = core.Ctx(ID, tier, seed, 0, 1)
+        c.note("asan stage skipped: %s" % str(e)[:200])
+        out.append(c.result())
+    # Miri: ~0.3 s per request -> a small corpus of the cheapest, most structural decoders
+    ctx = core.Ctx(ID, "quick", seed + 303, 0, 64)
+    picked = []
+    try:
+        per = {}
+        for case in cases(ctx):
+            w = case["which"]
+            if w not in MIRI_DECODERS or case["cls"] in ("long", "deep"):
+                continue
+            if len(case.get("hex", case.get("text", ""))) > 1200:
+                continue
+            if per.get((w, case["cls"]), 0) >= 28:
+                continue
+            per[(w, case["cls"])] = per.get((w, case["cls"]), 0) + 1
+            picked.append(case)
+    finally:
+        ctx.close()
+    ctx.rnd.shuffle(picked)
+    picked = picked[:2400]
+    reqs = [request_of(c) for c in picked]
+    resps, diag = miri.run([q for q, _ in reqs], nproc=16, timeout_s=2400)
+    mctx = core.Ctx(ID, tier, seed, 0, 1)
+    if resps is None:
+        mctx.note("miri stage skipped: %s" % str(diag)[:300])
+    else:
+        n_ans = 0
+        for case, (q, n), r in zip(picked, reqs, resps):
+            if r is None:
+                continue
+            n_ans += 1
+            mctx.begin(case)
+            mctx.outcomes[core.drvmod.outcome(r) if "miri_ub" not in r else "miri_ub"] += 1
+            assess(mctx, case, n, r, "miri")
+            mctx.end()
+        mctx.note("miri requests answered", n_ans)
+        mctx.exhaustive.append("miri stage: %d decode requests interpreted under Miri (%s)" % (n_ans, diag))
+    mr = mctx.result()
+    mr["hits"] = {"miri:%s" % k: v for k, v in mr["hits"].items()}
+    mr["samples"] = []
+    out.append(mr)
+    return out
